@@ -9,8 +9,12 @@ package neutrino
 // store call until the path releases that goroutine.  A goroutine that is not
 // at a gate but waits for blockManager.filterHeaderStoreMtx is recognised from
 // a goroutine dump (state sync.Mutex.Lock inside one of the two functions),
-// never by sleeping.  After every step both stores are read back and projected
-// like in the main driver.  Uses the types of zz_verif_cfsync_test.go.
+// never by sleeping.  The driver is also the only receiver of the unbuffered
+// blockNtfnChan: a goroutine blocked sending a block event (recognised from
+// the dump too) is released by the step Recv, which takes exactly one event;
+// the sequence of delivered events is part of the observation (C19).  After
+// every step both stores are read back and projected like in the main driver.
+// Uses the types of zz_verif_cfsync_test.go.
 
 import (
 	"bufio"
@@ -32,6 +36,7 @@ import (
 	"github.com/btcsuite/btcd/wire/v2"
 	"github.com/btcsuite/btcwallet/walletdb"
 	"github.com/lightninglabs/neutrino/banman"
+	"github.com/lightninglabs/neutrino/blockntfns"
 	"github.com/lightninglabs/neutrino/headerfs"
 )
 
@@ -223,13 +228,21 @@ type vfCFRaceEnv struct {
 	braw  headerfs.BlockHeaderStore
 	fraw  headerfs.FilterHeaderStore
 	rsc   []int
-	state map[string]string // init | gate name | blk | run | ok | err
+	state map[string]string // init | gate name | blk | send | run | ok | err
 	gid   map[string]string
 	buf   []byte
+	sendq []string // goroutines blocked sending on blockNtfnChan, oldest first
+	evs   []int    // delivered events: Connected(b) = b+1, Disconnected(b) = -(b+1)
 }
 
 func (e *vfCFRaceEnv) observe() vfCFObs {
 	o := vfCFObs{Ban: []int{}, Mem: []int{0, 0, 0, 0}, Asg: []vfCFAsg{}, Cpi: 2, Rsc: e.rsc}
+	evs := append([]int{}, e.evs...)
+	q := 0
+	if vfCFRaceDone(e.state["R"]) && vfCFRaceDone(e.state["W"]) {
+		q = 1
+	}
+	o.Ev, o.Q = &evs, &q
 	_, tip, err := e.braw.ChainTip()
 	if err != nil {
 		o.B = []int{vfCFG}
@@ -261,17 +274,22 @@ func (e *vfCFRaceEnv) observe() vfCFObs {
 	return o
 }
 
-// mutexParked reports whether the goroutine is waiting for a sync.Mutex
-// directly inside rollBackToHeight / writeCFHeadersMsg: its state in a
-// goroutine dump is sync.Mutex.Lock and the frame that called
-// sync.(*Mutex).Lock is one of the two functions.  Two consecutive dumps must
-// agree (a goroutine blocked on the mutex stays blocked while nothing else is
-// released).
-func (e *vfCFRaceEnv) mutexParked(gid string) bool {
-	return e.mutexParkedOnce(gid) && e.mutexParkedOnce(gid)
+// parkedAs classifies a goroutine that is neither at a gate nor done from a
+// goroutine dump: "blk" if it waits for a sync.Mutex directly inside
+// rollBackToHeight / writeCFHeadersMsg (state sync.Mutex.Lock, and the frame
+// that called sync.(*Mutex).Lock is one of the two functions), "send" if it
+// is blocked in the select of onBlockConnected / onBlockDisconnected, ""
+// otherwise (still running).  Two consecutive dumps must agree: a goroutine
+// blocked like that stays blocked while nothing else is released.
+func (e *vfCFRaceEnv) parkedAs(gid string) string {
+	a := e.parkedOnce(gid)
+	if a == "" || e.parkedOnce(gid) != a {
+		return ""
+	}
+	return a
 }
 
-func (e *vfCFRaceEnv) mutexParkedOnce(gid string) bool {
+func (e *vfCFRaceEnv) parkedOnce(gid string) string {
 	var dump []byte
 	for {
 		n := runtime.Stack(e.buf, true)
@@ -284,7 +302,7 @@ func (e *vfCFRaceEnv) mutexParkedOnce(gid string) bool {
 	tag := []byte("\ngoroutine " + gid + " [")
 	i := bytes.Index(dump, tag)
 	if i < 0 {
-		return false
+		return ""
 	}
 	rest := dump[i+len(tag):]
 	if end := bytes.Index(rest, []byte("\n\n")); end >= 0 {
@@ -294,9 +312,6 @@ func (e *vfCFRaceEnv) mutexParkedOnce(gid string) bool {
 	if j := bytes.IndexByte(st, ']'); j >= 0 {
 		st = st[:j]
 	}
-	if !bytes.HasPrefix(st, []byte("sync.Mutex.Lock")) {
-		return false
-	}
 	// function lines only (every second line is file:line)
 	var fns []string
 	for _, ln := range strings.Split(string(rest), "\n")[1:] {
@@ -304,21 +319,24 @@ func (e *vfCFRaceEnv) mutexParkedOnce(gid string) bool {
 			fns = append(fns, ln)
 		}
 	}
-	for k, fn := range fns {
-		if strings.HasPrefix(fn, "sync.(*Mutex).Lock(") {
-			if k+1 >= len(fns) {
-				return false
+	switch {
+	case bytes.HasPrefix(st, []byte("select")):
+		if len(fns) > 0 && (strings.Contains(fns[0], "neutrino.(*blockManager).onBlockConnected(") ||
+			strings.Contains(fns[0], "neutrino.(*blockManager).onBlockDisconnected(")) {
+			return "send"
+		}
+	case bytes.HasPrefix(st, []byte("sync.Mutex.Lock")):
+		for k, fn := range fns {
+			if strings.HasPrefix(fn, "sync.(*Mutex).Lock(") {
+				if k+1 < len(fns) && (strings.Contains(fns[k+1], "neutrino.(*blockManager).rollBackToHeight(") ||
+					strings.Contains(fns[k+1], "neutrino.(*blockManager).writeCFHeadersMsg(")) {
+					return "blk"
+				}
+				return ""
 			}
-			nx := fns[k+1]
-			ok := strings.Contains(nx, "neutrino.(*blockManager).rollBackToHeight(") ||
-				strings.Contains(nx, "neutrino.(*blockManager).writeCFHeadersMsg(")
-			if ok && os.Getenv("VERIF_CFS_DEBUG") != "" {
-				fmt.Fprintf(os.Stderr, "PARKED goroutine %s [%s\n", gid, rest)
-			}
-			return ok
 		}
 	}
-	return false
+	return ""
 }
 
 func (e *vfCFRaceEnv) start(p string) {
@@ -368,6 +386,11 @@ func vfCFRaceDone(s string) bool { return s == "ok" || s == "err" || s == "panic
 // settle waits until every goroutine is at a gate, on the mutex, or done.
 func (e *vfCFRaceEnv) settle() error {
 	deadline := time.Now().Add(60 * time.Second)
+	// A released goroutine normally reaches its next gate (or returns) within
+	// microseconds; goroutine dumps (stop the world, and fragile while other
+	// threads sit in system calls) are only taken once that has not happened
+	// for a while, i.e. when it really is blocked.
+	grace := time.Now().Add(400 * time.Microsecond)
 	for {
 		for drained := false; !drained; {
 			select {
@@ -388,16 +411,29 @@ func (e *vfCFRaceEnv) settle() error {
 			}
 		}
 		busy := false
+		if time.Now().Before(grace) {
+			for _, p := range []string{"R", "W"} {
+				busy = busy || e.state[p] == "run"
+			}
+			if !busy {
+				return nil
+			}
+			runtime.Gosched()
+			continue
+		}
 		for _, p := range []string{"R", "W"} {
 			if e.state[p] == "run" {
-				if e.mutexParked(e.gid[p]) {
+				if how := e.parkedAs(e.gid[p]); how != "" {
 					// an event may have raced with the dump
 					select {
 					case ev := <-e.g.ev:
 						e.g.ev <- ev
 						busy = true
 					default:
-						e.state[p] = "blk"
+						e.state[p] = how
+						if how == "send" {
+							e.sendq = append(e.sendq, p)
+						}
 					}
 				} else {
 					busy = true
@@ -425,7 +461,7 @@ func (e *vfCFRaceEnv) step(p string) (string, bool, error) {
 	case s == "init":
 		e.state[p] = "run"
 		e.start(p)
-	case s == "blk" || vfCFRaceDone(s):
+	case s == "blk" || s == "send" || vfCFRaceDone(s):
 		return s, false, nil
 	default:
 		e.state[p] = "run"
@@ -435,6 +471,82 @@ func (e *vfCFRaceEnv) step(p string) (string, bool, error) {
 		return "", false, err
 	}
 	return e.state[p], true, nil
+}
+
+// recv takes one event from blockNtfnChan (the goroutine blocked longest gets
+// rid of its event) and lets that goroutine run on.  Returns the event code
+// and the sender's new state; ok = false if nobody is blocked sending.
+func (e *vfCFRaceEnv) recv() (int, string, bool, error) {
+	if len(e.sendq) == 0 {
+		return 0, "", false, nil
+	}
+	var ntfn blockntfns.BlockNtfn
+	select {
+	case ntfn = <-e.bm.blockNtfnChan:
+	case <-time.After(60 * time.Second):
+		return 0, "", false, fmt.Errorf("no block event although %v block sending", e.sendq)
+	}
+	code, who := 1000, ""
+	idOf := func(h wire.BlockHeader, height uint32) int {
+		if int(height) < len(e.w.hash) && h.BlockHash() == e.w.hash[height] {
+			return int(height)
+		}
+		return -1
+	}
+	switch n := ntfn.(type) {
+	case *blockntfns.Connected:
+		who = "W"
+		if id := idOf(n.Header(), n.Height()); id >= 0 {
+			code = id + 1
+		}
+	case *blockntfns.Disconnected:
+		who = "R"
+		if id := idOf(n.Header(), n.Height()); id >= 0 {
+			code = -(id + 1)
+		}
+	}
+	e.evs = append(e.evs, code)
+	for i, p := range e.sendq {
+		if p == who {
+			e.sendq = append(e.sendq[:i:i], e.sendq[i+1:]...)
+			break
+		}
+	}
+	e.state[who] = "run"
+	if err := e.settle(); err != nil {
+		return 0, "", false, err
+	}
+	return code, e.state[who], true, nil
+}
+
+// next performs the command op (StepR, StepW, Recv) and returns the act to
+// record.
+func (e *vfCFRaceEnv) next(op string) (vfCFAct, bool, error) {
+	a := vfCFAct{Op: op, Rs: []int{}}
+	if op == "Recv" {
+		code, res, ok, err := e.recv()
+		if err != nil {
+			return a, false, err
+		}
+		if !ok {
+			a.Res = "skip:none"
+			return a, false, nil
+		}
+		a.N, a.Res = code, res
+		return a, true, nil
+	}
+	res, ok, err := e.step(strings.TrimPrefix(op, "Step"))
+	if err != nil {
+		return a, false, err
+	}
+	if !ok {
+		// the goroutine the schedule wants to release waits for the mutex,
+		// for the receiver, or has returned: the command does not apply
+		a.Res = "skip:" + res
+		return a, false, nil
+	}
+	a.Res = res
+	return a, true, nil
 }
 
 func vfCFRaceRun(w *vfCFRaceWorld, p vfCFPathIn) (out vfCFPathOut) {
@@ -497,25 +609,24 @@ func vfCFRaceRun(w *vfCFRaceWorld, p vfCFPathIn) (out vfCFPathOut) {
 		out.Error = "newBlockManager: " + err.Error()
 		return
 	}
-	go func() {
-		for {
-			select {
-			case <-bm.blockNtfnChan:
-			case <-bm.quit:
-				return
-			}
-		}
-	}()
 	e := &vfCFRaceEnv{w: w, g: g, bm: bm, braw: braw, fraw: fraw, rsc: rsc,
 		state: map[string]string{"R": "init", "W": "init"}, gid: map[string]string{},
 		buf: make([]byte, 1<<18)}
 	defer func() {
-		// let whatever is still parked run to its end
+		// let whatever is still parked run to its end (senders give up on quit)
 		close(bm.quit)
-		for i := 0; i < 128; i++ {
+		for i := 0; i < 256; i++ {
 			moved := false
 			for _, q := range []string{"R", "W"} {
 				if e.state[q] == "init" {
+					continue
+				}
+				if e.state[q] == "send" {
+					e.state[q] = "run"
+					e.sendq = nil
+					if e.settle() == nil {
+						moved = true
+					}
 					continue
 				}
 				if _, ok, err := e.step(q); err == nil && ok {
@@ -533,41 +644,59 @@ func vfCFRaceRun(w *vfCFRaceWorld, p vfCFPathIn) (out vfCFPathOut) {
 		out.Stopped = "initial observables differ from the model"
 		return
 	}
-	mk := func(proc string) vfCFAct { return vfCFAct{Op: "Step" + proc, Rs: []int{}} }
+	// A command for a goroutine that waits for the mutex cannot be carried out
+	// now; it is not dropped but carried out as soon as that goroutine can be
+	// released again, so that a schedule is followed as closely as the code's
+	// own locking allows.
+	deferred := map[string]int{}
+	catchUp := func() error {
+		for _, q := range []string{"R", "W"} {
+			for deferred[q] > 0 && e.state[q] != "blk" {
+				deferred[q]--
+				a, ok, err := e.next("Step" + q)
+				if err != nil {
+					return err
+				}
+				if !ok {
+					deferred[q] = 0
+					break
+				}
+				out.Steps = append(out.Steps, vfCFStepOut{Act: a, Obs: e.observe(),
+					Note: "command deferred while the goroutine waited for the mutex"})
+			}
+		}
+		return nil
+	}
 	for i, s := range p.Steps {
-		proc := strings.TrimPrefix(s.Act.Op, "Step")
-		res, ok, err := e.step(proc)
+		a, _, err := e.next(s.Act.Op)
 		if err != nil {
 			out.Error = fmt.Sprintf("step %d: %v", i+1, err)
 			return
 		}
-		a := mk(proc)
-		if !ok {
-			// the goroutine the schedule wants to release waits for the
-			// mutex or has returned: the command does not apply
-			a.Res = "skip:" + res
-		} else {
-			a.Res = res
-		}
 		out.Steps = append(out.Steps, vfCFStepOut{Act: a, Obs: e.observe()})
+		if a.Res == "skip:blk" {
+			deferred[strings.TrimPrefix(a.Op, "Step")]++
+		}
+		if err := catchUp(); err != nil {
+			out.Error = fmt.Sprintf("step %d (deferred): %v", i+1, err)
+			return
+		}
 	}
 	// run both functions to their end so that what the schedule led to is seen
-	for n := 0; n < 64; n++ {
+	for n := 0; n < 128; n++ {
 		progressed := false
-		for _, q := range []string{"R", "W"} {
-			if e.state[q] == "init" {
+		for _, op := range []string{"Recv", "StepR", "StepW"} {
+			if op != "Recv" && e.state[strings.TrimPrefix(op, "Step")] == "init" {
 				continue // never started by this schedule
 			}
-			res, ok, err := e.step(q)
+			a, ok, err := e.next(op)
 			if err != nil {
 				out.Error = "drain: " + err.Error()
 				return
 			}
 			if ok {
-				a := mk(q)
-				a.Res = res
 				out.Steps = append(out.Steps, vfCFStepOut{Act: a, Obs: e.observe(),
-					Note: "schedule over, goroutine run to its end"})
+					Note: "schedule over, goroutines run to their end"})
 				progressed = true
 				break
 			}
